@@ -10,6 +10,8 @@ import (
 
 	"github.com/thushan/olla/internal/adapter/translator/anthropic"
 	"github.com/thushan/olla/internal/config"
+	"github.com/thushan/olla/internal/core/constants"
+	"github.com/thushan/olla/internal/core/ports"
 
 	"github.com/thushan/olla/internal/adapter/proxy/common"
 	"github.com/thushan/olla/internal/app/middleware"
@@ -30,13 +32,21 @@ type zzRoutingRegistry struct {
 
 func (z *zzRoutingRegistry) GetRoutableEndpointsForModel(_ context.Context, model string, healthy []*domain.Endpoint) ([]*domain.Endpoint, *domain.ModelRoutingDecision, error) {
 	z.asked++
+	// the two shapes the real strategies use for a rejection: strict/discovery return an error,
+	// optimistic returns an empty list with a nil error; both carry the decision
+	reject := func(reason string, status int) ([]*domain.Endpoint, *domain.ModelRoutingDecision, error) {
+		z.rejected, z.status = true, status
+		d := ports.NewRoutingDecision("zz", ports.RoutingActionRejected, reason)
+		if gosym.Choice("rejection-shape", 2) == 0 {
+			return nil, d, errors.New("model " + model + ": " + reason)
+		}
+		return []*domain.Endpoint{}, d, nil
+	}
 	switch gosym.Choice("routing", 3) {
 	case 0: // rejected: model not found
-		z.rejected, z.status = true, http.StatusNotFound
-		return nil, &domain.ModelRoutingDecision{Strategy: "strict", Action: "rejected", Reason: "model not found", StatusCode: http.StatusNotFound}, errors.New("model " + model + " not found")
+		return reject(constants.RoutingReasonModelNotFound, http.StatusNotFound)
 	case 1: // rejected: only unhealthy endpoints have it
-		z.rejected, z.status = true, http.StatusServiceUnavailable
-		return nil, &domain.ModelRoutingDecision{Strategy: "strict", Action: "rejected", Reason: "model unavailable", StatusCode: http.StatusServiceUnavailable}, errors.New("model " + model + " unavailable")
+		return reject(constants.RoutingReasonModelUnavailableNoFallback, http.StatusServiceUnavailable)
 	default: // routed to a non-empty subset
 		var out []*domain.Endpoint
 		for _, e := range healthy {
@@ -48,7 +58,7 @@ func (z *zzRoutingRegistry) GetRoutableEndpointsForModel(_ context.Context, mode
 			out = healthy[:1]
 		}
 		z.picked = out
-		return out, &domain.ModelRoutingDecision{Strategy: "strict", Action: "routed", Reason: "model found"}, nil
+		return out, ports.NewRoutingDecision("zz", ports.RoutingActionRouted, constants.RoutingReasonModelFound), nil
 	}
 }
 
